@@ -462,6 +462,12 @@ func (group *Group) broadcastByRtmpMsg(msg base.RtmpMsg) {
 // ---------------------------------------------------------------------------------------------------------------------
 
 func (group *Group) feedRtpPacket(pkt rtprtcp.RtpPacket) {
+	// 注意，rtsp pub的udp接收数据连接和tcp命令连接是并行的，输入流已经结束（sdp已被清空）后，数据依然可能回调上来，
+	// 此时不再转发
+	if group.sdpCtx == nil {
+		return
+	}
+
 	// 如果配置项 OutWaitKeyFrameFlag 为false，则音频和视频都直接发送。（音频和视频都不等待视频关键帧，都不等待任何数据）
 	if !group.config.RtspConfig.OutWaitKeyFrameFlag {
 		for s := range group.rtspSubSessionSet {
